@@ -48,13 +48,22 @@ def run_entry(ent, tier, seed, budget_graph, explore_runs, random_runs):
       g = graph.Graph.from_dot(dot)
       n_paths = 0
       last_path = None
-      for path in g.edge_cover(rnd, budget_s=budget_graph):
+      for path in g.edge_cover(rnd, budget_s=budget_graph * ent.get('budget_x', 1)):
         o, mm = qcheck.replay_path(cfg, path, g)
         n_paths += 1
         out['replayed'] += 1
         script = [p for (_, _, _, p) in path]
         bad = _judge(name, cfg, o, script, 'TLC edge-cover path', out)
         if mm is not None and not bad:
+          na = qcheck.outcome_allowed(o, mm, path, g) if out['drift'] < 25 else None
+          if na is not None:
+            real, n_allowed = na
+            fld = '+'.join(mm.get('fields') or [mm['kind']])
+            out['violations'].append((f'outcome-not-allowed-by-spec:{fld}',
+                                      f'[{name}] after following a TLC path the real run ends with {real}, which none of the '
+                                      f'{n_allowed} outcomes the specification reaches from there matches; first divergence: {mm}',
+                                      dict(kind='queue', config_name=name, config=cfg, schedule=script, source='TLC edge-cover path',
+                                           outcome=o.summary())))
           out['drift'] += 1
           if len(out['drift_examples']) < 2:
             out['drift_examples'].append(mm)
@@ -134,5 +143,7 @@ def run(chk, entries, *, budget_graph=6.0, explore_runs=250, random_runs=80, neg
 
 
 def _neg(cfg):
-  r = qcheck.tlc_check(cfg, fixes=set(), timeout=900, workers=2)
+  cfg = dict(cfg)
+  fixes = cfg.pop('neg_fixes', set())     # default: the pinned design without the recorded repairs
+  r = qcheck.tlc_check(cfg, fixes=fixes, timeout=900, workers=2)
   return r.error_kind or 'ok'
